@@ -11,7 +11,7 @@
  * Tier B.  With DFCC + loop contracts this function did not fit (41M SAT variables with the buffer already
  * scaled down; the 20 kB local line buffer alone needs > 30 GB), and the facts about file-stack entries below
  * the top are needed at a computed index after a pop.  This unit is a plain bounded harness:
- *     at most 4 chunks are delivered in total (all files together), include nesting <= 2 files,
+ *     at most 3 chunks are delivered in total (all files together), include nesting <= 2 files,
  *     no %preproc directive, line buffer CONFIG_BUFF scaled to 32 bytes
  * Callees are bound by the --replace-calls pre-pass to model functions with the text of their contracts
  * (contracts/conf.h): spifconf_parse_line (file-stack projection of the contract proved in C09.parse_line),
@@ -25,10 +25,12 @@ src: conf.c
 prepass: --replace-calls spifconf_parse_line:v_m_parse_line --replace-calls spifconf_open_file:v_m_open_file --replace-calls spifconf_find_file:v_m_find_file
 backend: sat
 tier: B
-bound: <= 4 chunks delivered by fgets in total, include nesting <= 2 files, no %preproc directive, line buffer CONFIG_BUFF scaled to 32 bytes
-unwind: 7
+bound: <= 3 chunks delivered by fgets in total, include nesting <= 2 files, no %preproc directive, line buffer CONFIG_BUFF scaled to 32 bytes
+unwind: 6
 timeout: 600
 funcs: spifconf_parse, spifconf_register_fstate
+native: conf_replay
+native_includes: conf.c
 */
 #include "vprelude.h"
 #undef  CONFIG_BUFF
@@ -51,9 +53,9 @@ void harness(void)
     /* initialised subsystem: empty file stack with the capacity init gives it */
     fstate_cnt = 10; fstate_idx = 0;
     fstate = (fstate_t *) malloc(sizeof(fstate_t) * 10);
-    /* ghosts: every complete line so far was delivered; at a line boundary; the environment still has <= 4 chunks */
+    /* ghosts: every complete line so far was delivered; at a line boundary; the environment still has <= 3 chunks */
     vg_pl_calls = nondet_ulong(); vg_deliverable = vg_pl_calls; vg_fg_mid = 0; vg_fg_hdr = 0; vg_fg_ok = 0;
-    vg_fg_budget = nondet_ulong(); __CPROVER_assume(vg_fg_budget <= 4);
+    vg_fg_budget = nondet_ulong(); __CPROVER_assume(vg_fg_budget <= 3);
     vg_open_streams = nondet_ulong();
     streams0 = vg_open_streams; calls0 = vg_pl_calls;
 
